@@ -245,6 +245,8 @@ func Structures() []Entry {
 		"a = \"x\"\nb = local.a\n",
 		"locals {\n  x = { k = [1, 2] }\n  y = local.x.k[0]\n}\n",
 		"locals {\n  \n}\n",
+		// legacy index syntax (a dot and a number) on a list that has element targets
+		"locals {\n  x = { k = [1, 2, 3, 4, 5, 6, 7, 8, 9, 10, 11] }\n  y = local.x.k.0\n  z = local.x.k.10\n  w = local.x.k[1]\n}\n",
 	)
 
 	// --- wide bodies (leave the 12-element insertion-sort regime) ------------------------------
